@@ -40,7 +40,8 @@ REQUIRED = dict(monitors=['restricted-equals-full', 'restricted-grid-is-subset',
                          'different-native-grids', 'layout:xsec', 'layout:ktable', 'contrib:HydrogenIon',
                          'sliding-window-same-size', 'request:own-full', 'request:foreign-same-ends-and-count',
                          'request:foreign-shifted-same-count', 'request:own-sub-range', 'request:foreign-random',
-                         'requested-order:ascending', 'requested-order:descending', 'requested-order:shuffled'])
+                         'requested-order:ascending', 'requested-order:descending', 'requested-order:shuffled',
+                         'emission:same-size-window'])
 CUT = math.exp(-10.0)
 
 
@@ -266,6 +267,26 @@ def wl_emission(ctx, rng):
         Bstar = R.planck_taurex_units(ws, snf['Tstar'])
         scale = (snf['Rp'] / snf['Rs']) ** 2 / Bstar * math.pi
         ctx.close('emission-restricted-equals-full', ss, sf[idx], 1e-10, atol=(rf['atolI'][idx] + rs['atolI']) * scale, grid=gcls)
+    # further windows on the SAME model: windows of equal length at other places of the native grid (anything keyed
+    # on the number of points alone -- the stellar spectrum, a per-grid buffer -- would go stale), then the full grid
+    if len(wf) >= 12:
+        wlen = int(rng.integers(3, max(4, len(wf) // 3)))
+        starts = rng.permutation(np.arange(1, len(wf) - wlen - 1))[:int(rng.integers(2, 5))]
+        for i0 in starts:
+            gk = wf[int(i0):int(i0) + wlen].copy()
+            wk, sk_, snk, rk = run(wngrid=gk)
+            ik = np.searchsorted(wf, wk)
+            if not (np.all(ik < len(wf)) and np.array_equal(wf[np.minimum(ik, len(wf) - 1)], wk)) or not len(wk):
+                ctx.check('restricted-grid-is-subset', False, window=[float(gk[0]), float(gk[-1])])
+                continue
+            Bk = R.planck_taurex_units(wk, snf['Tstar'])
+            sck = (snf['Rp'] / snf['Rs']) ** 2 / Bk * math.pi
+            ctx.close('emission-restricted-equals-full', sk_, sf[ik], 1e-10, atol=(rf['atolI'][ik] + rk['atolI']) * sck,
+                      grid='window-of-%d' % wlen, start=int(i0))
+            ctx.observe('emission:same-size-window')
+        wa, sa, sna, ra = run()
+        ctx.close('emission-full-again-equals-full', sa, sf, 1e-12, atol=2 * rf['atolI'] * (snf['Rp'] / snf['Rs']) ** 2
+                  / R.planck_taurex_units(wf, snf['Tstar']) * math.pi)
     ctx.sig('emission', spec['nlayers'], gcls, tuple(len(t['wn']) for t in spec['tables'].values()), round(spec['planet_mass'], 6))
 
 
